@@ -35,8 +35,115 @@ def decode_shape(F, lo, hi):
     return [([(bl, True)], NONE), ([(bl, False), (bh, True)], NONE), ([(bl, False), (bh, False)], SOME(v))]
 
 
+WIDTHS = {"u8": 8, "u16": 16, "u32": 32, "u64": 64, "usize": 64}
+HEXCHARS = {**{ord("0") + k: k for k in range(10)}, **{ord("a") + k: 10 + k for k in range(6)}, **{ord("A") + k: 10 + k for k in range(6)}}
+
+
+def _ref_digit(bv):
+    return HEXCHARS.get(bv, 255)
+
+
+class _Unknown(Exception):
+    pass
+
+
+def _ev(S, F, x, asg, tabs):
+    """Value of raw expression x when src[i] = asg['src'][i] and len(src) = asg['len'] (integers are exact: every IntToInt cast
+    and every shift/add is reduced to the width of its MIR type)."""
+    k = x[0]
+    if k == "const":
+        return x[1]
+    if k == "cpath":
+        if len(x) > 2 and isinstance(x[2], int):
+            return x[2]
+        raise _Unknown(sym.fmt(n(x)))
+    if k == "cast":
+        v = _ev(S, F, x[3], asg, tabs)
+        if x[1] == "IntToInt":
+            w = WIDTHS.get(x[2])
+            if w is None or not isinstance(v, int):
+                raise _Unknown("cast to %s" % x[2])
+            return v & ((1 << w) - 1)
+        return v
+    if k == "load":
+        pl = x[1]
+        if pl[0] == "index" and pl[1] == ("deref", P(1)) and pl[2][0] == "const":
+            return asg["src"][pl[2][1]]
+        raise _Unknown(sym.fmt(n(x)))
+    if k == "index" and x[1][0] == "table":
+        arr = tabs(x[1][1])
+        i = _ev(S, F, x[2], asg, tabs)
+        if arr is None or not isinstance(i, int) or not (0 <= i < len(arr)):
+            raise _Unknown("table %s[%s]" % (x[1][1], i))
+        return arr[i]
+    if k == "bin":
+        a, b = _ev(S, F, x[2], asg, tabs), _ev(S, F, x[3], asg, tabs)
+        op = x[1]
+        if op in ("Eq", "Ne", "Lt", "Le", "Gt", "Ge"):
+            return int({"Eq": a == b, "Ne": a != b, "Lt": a < b, "Le": a <= b, "Gt": a > b, "Ge": a >= b}[op])
+        if op in ("BitOr", "BitAnd", "BitXor", "Shr"):
+            return {"BitOr": a | b, "BitAnd": a & b, "BitXor": a ^ b, "Shr": a >> b}[op]
+        t = S.type_of(x)
+        w = WIDTHS.get(t["s"]) if t else None
+        if w is None:
+            raise _Unknown("width of %s" % sym.fmt(n(x)))
+        if op in ("Shl", "ShlUnchecked"):
+            return (a << b) & ((1 << w) - 1)
+        if op in ("Add", "Sub", "Mul"):
+            v = {"Add": a + b, "Sub": a - b, "Mul": a * b}[op]
+            if not (0 <= v < (1 << w)):
+                raise _Unknown("arithmetic overflow in %s" % sym.fmt(n(x)))
+            return v
+        raise _Unknown("operator %s" % op)
+    if k == "un" and x[1] == "Not":
+        v = _ev(S, F, x[2], asg, tabs)
+        t = S.type_of(x[2])
+        if t and t.get("s") == "bool":
+            return 1 - v
+        raise _Unknown("Not on non-bool")
+    if k == "call":
+        path = x[2] if isinstance(x[1], int) else x[1]
+        args = x[3] if isinstance(x[1], int) else x[2]
+        if path.endswith(("intrinsics::likely", "intrinsics::unlikely", "hint::likely", "hint::unlikely")) and len(args) == 1:
+            return _ev(S, F, args[0], asg, tabs)
+        if path == "core::slice::<impl [T]>::len" and len(args) == 1 and n(args[0]) in (P(1), ("deref", P(1))):
+            return asg["len"]
+        if path == H + "decode_digit" and len(args) == 1:
+            return _ref_digit(_ev(S, F, args[0], asg, tabs))
+        raise _Unknown("call %s" % path)
+    if k == "agg":
+        if x[1].endswith("Option::Some"):
+            return ("Some", _ev(S, F, x[2][0], asg, tabs))
+        if x[1].endswith("Option::None"):
+            return ("None",)
+    if k in ("ref", "val"):
+        return _ev(S, F, x[-1], asg, tabs)
+    raise _Unknown(sym.fmt(n(x))[:80])
+
+
+def _byte_classes(F, b, tabs):
+    """Representatives of the classes of the byte domain under the tables this function reads (plus the hex-digit meaning)."""
+    used = sorted({x[1] for blk in [0] for p in sym.Sym(b).paths() for (_, d, _, _) in p.conds for x in find_all(d, lambda y: y[0] == "table")} |
+                  {x[1] for p in sym.Sym(b).paths() if p.ret for x in find_all(p.ret, lambda y: y[0] == "table")})
+    reps = {}
+    for bv in range(256):
+        sig = tuple((tabs(t) or [None] * 256)[bv] if tabs(t) and len(tabs(t)) > bv else None for t in used) + (HEXCHARS.get(bv, -1), bv if bv in HEXCHARS else -1)
+        reps.setdefault(sig, bv)
+    return sorted(reps.values()), used
+
+
 def decoders(ctx, r, F):
-    """decode_rev_1 reads src[0] as the low nibble and src[1] as the high nibble; decode_1 the opposite."""
+    """decode_rev_1 reads src[0] as the low nibble and src[1] as the high nibble; decode_1 the opposite.  Decided by evaluating the
+    function's decision tree (MIR paths) on one representative per class of the byte domain under the tables it reads."""
+    from .c17 import table_values
+    cache = {}
+    WIDTHS["usize"] = F.usize_bytes * 8
+
+    def tabs(path):
+        if path not in cache:
+            cache[path] = table_values(F, path)
+        return cache[path]
+
     for nm, lo_i, hi_i in (("decode_rev_1", 0, 1), ("decode_1", 1, 0)):
         b = F.fn(H + nm)
         if b is None:
@@ -45,14 +152,53 @@ def decoders(ctx, r, F):
             ctx.missing(r, H + nm, cfg=F.key)
             continue
         ctx.instance(r)
-        gate = binop("Ne", ("call", "core::slice::<impl [T]>::len", (P(1),)), C(2))
-        want = [([(gate, True)], NONE)] + [([(gate, False)] + cs, ret) for cs, ret in decode_shape(F, src(lo_i), src(hi_i))]
-        got = cmpmodel.decision(b)
-        ok = sorted(map(repr, got)) == sorted(map(repr, want))
-        ctx.ob(r, (nm, "combination-shape"), ok,
-               "%s does not combine src[%d] (low nibble) and src[%d] (high nibble) with this configuration's reference shape: %s" % (
-                   nm, lo_i, hi_i, [([(sym.fmt(c), t) for c, t in cs], sym.fmt(ret)) for cs, ret in got][:3]),
-               cfg=F.key, where=b.where())
+        S = sym.Sym(b)
+        paths = [p for p in S.paths() if p.end == "return"]
+        other_ends = sorted({p.end for p in S.paths()} - {"return"})
+        reps, used = _byte_classes(F, b, tabs)
+        bad = []
+        n_eval = 0
+
+        def run(asg):
+            hits = []
+            for p in paths:
+                ok = True
+                for (_, d, taken, vals) in p.conds:
+                    v = _ev(S, F, d, asg, tabs)
+                    if taken == "otherwise":
+                        ok = v not in vals
+                    else:
+                        ok = v == taken
+                    if not ok:
+                        break
+                if ok:
+                    hits.append(p)
+            if len(hits) != 1:
+                raise _Unknown("%d paths feasible" % len(hits))
+            return _ev(S, F, hits[0].ret, asg, tabs)
+
+        try:
+            for ln in (0, 1, 3):
+                got = run({"len": ln, "src": {0: 0x30, 1: 0x30}})
+                n_eval += 1
+                if got != ("None",):
+                    bad.append("len %d gives %s; reference None" % (ln, got))
+            for b0 in reps:
+                for b1 in reps:
+                    src_ = {0: b0, 1: b1}
+                    got = run({"len": 2, "src": src_})
+                    n_eval += 1
+                    l_, h_ = _ref_digit(src_[lo_i]), _ref_digit(src_[hi_i])
+                    want = ("None",) if 255 in (l_, h_) else ("Some", h_ * 16 + l_)
+                    if got != want and len(bad) < 6:
+                        bad.append("src = [%r, %r] gives %s; reference %s" % (chr(b0), chr(b1), got, want))
+        except _Unknown as e:
+            bad.append("cannot evaluate: %s" % e)
+        if other_ends and other_ends != ["diverge"]:
+            pass
+        ctx.ob(r, (nm, "combination-shape"), not bad,
+               "%s: src[%d] is the low nibble and src[%d] the high nibble, any non-hex digit gives None -- violated: %s" % (nm, lo_i, hi_i, "; ".join(bad[:3])),
+               cfg=F.key, where=b.where(), detail={"byte_classes": len(reps), "tables": used, "evaluations": n_eval})
     if "opt-low-memory-hex-str-decode-min-table" in F.features:
         decode_digit(ctx, r, F)
 
